@@ -28,8 +28,9 @@ def gen_case(rng):
     ns = rng.choice([1, 1, 2, 3, 4, 6])
     kind = rng.choice(["bits", "bits", "float32", "int", "fortran", "special", "strided", "reversed"])
     series = []
+    same_T = W + rng.randint(1, 12) if (ns >= 2 and rng.random() < 0.3) else None    # equal-shaped series, several windows each
     for _ in range(ns):
-        T = W + rng.choice([0, 0, 1, 2, rng.randint(0, 40)])
+        T = same_T if same_T is not None else W + rng.choice([0, 0, 1, 2, rng.randint(0, 40)])
         if kind in ("bits", "fortran", "strided", "reversed"):
             cells = [[rng.getrandbits(64) for _ in range(N)] for _ in range(T)]
         elif kind == "special":
